@@ -541,17 +541,34 @@ func checkWaitGroupBalance(p *core.Prog, r *core.Report, rule string, fns []*ssa
 		callee := c.StaticCallee()
 		return callee != nil && callee.Name() == name && callee.Signature.Recv() != nil && strings.HasSuffix(callee.Signature.Recv().Type().String(), "sync.WaitGroup")
 	}
-	callsDone := func(f *ssa.Function) bool {
+	var callsDoneDepth func(f *ssa.Function, depth int) bool
+	callsDoneDepth = func(f *ssa.Function, depth int) bool {
 		found := false
 		for _, wf := range core.WithClosures(f) {
 			core.EachInstr(wf, func(in ssa.Instruction) {
-				if ci, ok := in.(ssa.CallInstruction); ok && isWG(ci.Common(), "Done") {
+				ci, ok := in.(ssa.CallInstruction)
+				if !ok || found {
+					return
+				}
+				if isWG(ci.Common(), "Done") {
 					found = true
+					return
+				}
+				// a helper that is handed the wait group and calls Done itself
+				if depth < 2 {
+					if g := ci.Common().StaticCallee(); g != nil && len(g.Blocks) > 0 {
+						for _, a := range ci.Common().Args {
+							if strings.HasSuffix(a.Type().String(), "sync.WaitGroup") && callsDoneDepth(g, depth+1) {
+								found = true
+							}
+						}
+					}
 				}
 			})
 		}
 		return found
 	}
+	callsDone := func(f *ssa.Function) bool { return callsDoneDepth(f, 0) }
 	n := 0
 	for _, f := range fns {
 		var adds []ssa.Instruction
